@@ -19,6 +19,7 @@ import (
 	"encoding/hex"
 	"fmt"
 	"os"
+	"path/filepath"
 	"sort"
 	"strings"
 
@@ -360,6 +361,13 @@ func (h *harness) tieAdd(n *node, d *types.BlockDetail) *blockTie {
 			}
 		}
 	}
+	if h.quick { // a short-hash key that already exists (another transaction with the same first 8 hash bytes)
+		for _, tx := range b.Txs {
+			if v := n.rawGet(types.CalcTxShortKey(tx.Hash())); len(v) > 0 {
+				out.Op(fmt.Sprintf("pre stx %s %s", hx(tx.Hash()[:8]), hx(v)), "ok")
+			}
+		}
+	}
 	if v := n.rawGet(types.TotalFeeKey(b.ParentHash)); v != nil {
 		var f types.TotalFee
 		if types.Decode(v, &f) == nil {
@@ -429,6 +437,9 @@ func (h *harness) tieDel(n *node, t *blockTie, height int64) {
 			badModel = append(badModel, hex.EncodeToString([]byte(k)))
 		}
 		sig := "C14|" + plugOf(k) + "|not-restored-by-add-then-del"
+		if strings.HasPrefix(k, "STX:") {
+			sig = stxSig
+		}
 		if amt, ok := t.failed[k]; ok && decodeInt(a)-decodeInt(b) == amt {
 			sig = "C14|coins.ExecLocal|failed-tx-counted-but-not-undone"
 		}
@@ -438,6 +449,88 @@ func (h *harness) tieDel(n *node, t *blockTie, height int64) {
 		out.Op("chk", "same")
 	} else {
 		out.Op("chk", strings.Join(badModel, ","))
+	}
+}
+
+const stxSig = "C14|txindex.ExecDelLocal|short-hash-key-shared-with-another-tx-deleted"
+
+// stxCollision replays the corpus pair (two transactions whose Hash() share the first 8 bytes, found by
+// harness/cmd/c14collide): A is put on the chain of both nodes, B only into a junk block of node A, which is removed again.
+func (h *harness) stxCollision() {
+	self, _ := os.Executable()
+	b, err := os.ReadFile(filepath.Join(filepath.Dir(filepath.Dir(filepath.Dir(self))), "corpus", "C14", "stx_pair.txt"))
+	if err != nil {
+		out.Stat("stx_pair_missing", 1)
+		return
+	}
+	var pa, pb []byte
+	for _, l := range strings.Split(string(b), "\n") {
+		f := strings.Fields(l)
+		if len(f) == 2 && !strings.HasPrefix(l, "#") {
+			pa, _ = hex.DecodeString(f[0])
+			pb, _ = hex.DecodeString(f[1])
+		}
+	}
+	mk := func(p []byte) *types.Transaction {
+		tx := &types.Transaction{Execer: []byte("none"), Payload: p, To: address.ExecAddress("none"), Fee: 1000000, Nonce: 7, ChainID: h.cfg().GetChainID()}
+		tx.Sign(types.SECP256K1, h.accts[1].priv)
+		return tx
+	}
+	txA, txB := mk(pa), mk(pb)
+	ha, hb := txA.Hash(), txB.Hash()
+	if len(pa) != 8 || !bytes.Equal(ha[:8], hb[:8]) || bytes.Equal(ha, hb) {
+		out.Stat("stx_pair_not_a_collision_on_this_tree", 1)
+		return
+	}
+	filler := func() *types.Transaction {
+		return h.mkTx("none", h.r.Bytes(6), address.ExecAddress("none"), h.accts[1], 1000000)
+	}
+	// A on the chain of both nodes
+	parent := h.a.tip()
+	d1, err := h.b.mint(parent, []*types.Transaction{txA, filler()}, dHi)
+	if err != nil {
+		out.Stat("stx_setup_failed", 1)
+		return
+	}
+	for _, n := range []*node{h.a, h.b} {
+		if _, err := n.deliver(d1.Block); err != nil {
+			out.Stat("stx_setup_failed", 1)
+			return
+		}
+	}
+	// B in a junk block of node A, removed by the heavier real block
+	dj, err := h.a.mint(d1.Block, []*types.Transaction{txB, filler()}, dLo)
+	if err != nil {
+		out.Stat("stx_setup_failed", 1)
+		return
+	}
+	dr, err := h.b.mint(d1.Block, []*types.Transaction{filler()}, dHi)
+	if err != nil {
+		out.Stat("stx_setup_failed", 1)
+		return
+	}
+	t := h.tieAdd(h.a, dj)
+	if _, err := h.a.deliver(dj.Block); err != nil {
+		out.Stat("stx_setup_failed", 1)
+		return
+	}
+	h.tieDel(h.a, t, dj.Block.Height)
+	if _, err := h.a.deliver(dr.Block); err != nil {
+		out.Stat("stx_setup_failed", 1)
+		return
+	}
+	_, _ = h.b.deliver(dr.Block)
+	obs := func(n *node) string {
+		has, err := n.mock.GetBlockChain().GetStore().HasTx(ha)
+		newTxs, derr := util.CheckDupTx(n.mock.GetClient(), []*types.Transaction{txA}, n.tip().Height)
+		_, qerr := n.mock.GetAPI().QueryTx(&types.ReqHash{Hash: ha})
+		return fmt.Sprintf("HasTx(A)=%v/%v duplicate-check-lets-A-through=%v/%v QueryTx(A)err=%v shortkey-present=%v", has, err, len(newTxs) == 1, derr, qerr, n.rawGet(types.CalcTxShortKey(ha)) != nil)
+	}
+	oa, ob := obs(h.a), obs(h.b)
+	out.Sample("stx collision: A=" + hex.EncodeToString(ha) + " B=" + hex.EncodeToString(hb) + " node-with-removed-block: " + oa + " | other node: " + ob)
+	out.Stat("stx_collision_replayed", 1)
+	if oa != ob {
+		out.Pred(stxSig, fmt.Sprintf("A=%x (on chain) B=%x (in the removed block): after removal %s; node that never saw B: %s", ha, hb, oa, ob))
 	}
 }
 
@@ -854,6 +947,9 @@ func main() {
 	h.b = newNode(h.quick)
 	defer h.b.close()
 	h.run(gen.Scale(18, 400))
+	if h.quick {
+		h.stxCollision()
+	}
 	out.Sample(fmt.Sprintf("mode=%s junk blocks added and removed on node A: %d; expected residue keys of the known defect: %d", mode, h.nJunk, len(h.drift)))
 }
 
